@@ -128,7 +128,22 @@ macro_rules! scalar {
         }
     )*};
 }
-scalar!(u8, u16, u32, u64, i64);
+scalar!(u8, u16, u32, u64, i64, u128);
+
+/// f64 keys: a key type that is only partially ordered.  Integers of the case file whose remainder
+/// modulo 7 is 3 stand for NaN (several different NaN "keys"), remainder 5 for an infinity.
+impl Scalar for f64 {
+    fn from_i(x: i128) -> Self {
+        match x.rem_euclid(7) {
+            3 => f64::NAN,
+            5 => if x % 2 == 0 { f64::INFINITY } else { f64::NEG_INFINITY },
+            _ => x as f64,
+        }
+    }
+    fn to_i(self) -> i128 {
+        if self.is_nan() { -1 } else if self.is_infinite() { -2 } else { self as i128 }
+    }
+}
 
 /// A u64 key whose comparisons are logged (C06: reveals every search path).
 #[repr(transparent)]
